@@ -6,7 +6,7 @@ V = os.path.dirname(os.path.dirname(os.path.abspath(__file__)))
 
 # id -> (technique, level text, level note)
 CHECKS = {
- "C01": ("proptest generated source trees; oracle: independent text-splice model + reassembly of cold / warm / after-map() chunk streams, source() re-asked on the streamed object after every round; one tree in eight a tower of 4-8 stacked wrappers; an observed-construction round (source()/size() after every mutating call, then stream vs source() of that object)",
+ "C01": ("proptest generated source trees; oracle: independent text-splice model + reassembly of cold / warm / after-map() chunk streams, source() re-asked on the streamed object after every round; one tree in eight a tower of 4-8 stacked wrappers; an observed-construction round (source()/size() after every mutating call, then stream vs source() of that object); a second object asked map() first and then streamed twice; chunks read after the call returned from memory the checking binary overwrites on free; one tree in 33 wide (9-40 children, 255-300 table entries, 17-80 replacements)",
          "Generated-input search (multi-byte trees, wild sorted maps, replacement pools incl. beyond-end) against a reference model of source(); every chunk of every stream must carry text and the chunks must reassemble. Exploration: shows the property on every generated tree and history, not on all.",
          "Trusts the harness's splice model (spec::splice_text) and its tree builder; known finding W2 (char vs byte columns) is tolerated only in its exact shape."),
  "C02": ("proptest generated ASCII trees; oracle: true (line, column) of every byte from a scan of the reference text, in all four (columns, final_source) modes, on fresh objects, on one object cold / warm / after map(), and on an object observed while under construction; thorough: libFuzzer+ASan target tree_c02 (bytes -> tree -> same oracle)",
@@ -21,16 +21,16 @@ CHECKS = {
  "C05": ("proptest generated call histories (mutators interleaved with 13 observers, fork / switch over live clones; legs of <=12, 22-48, 190-280, monotone and >65536 ops; inner trees incl. binary leaves with invalid UTF-8); oracle: reference replacement model + unobserved twin; thorough: libFuzzer+ASan target hist_c05",
          "Stateful/model-based: after every observer the answer equals the stable-sort splice model; final state equals an unobserved twin (==, hash, text). A second leg uses >20 colliding replacements so that an unstable sort is observable.",
          "Trusts spec::splice_text."),
- "C06": ("proptest generated composites over SourceMapSource-rich children; differential child-alone vs child-in-ConcatSource, and an attribution model of the ReplaceSource splice",
+ "C06": ("proptest generated composites over SourceMapSource-rich children; differential child-alone vs child-in-ConcatSource, and an attribution model of the ReplaceSource splice; one case in 22 with 9-40 children or 33-80 replacements (ties in the sort key) at the root",
          "Per-byte comparison of (file, content, line, column, name) between each child alone and inside the composite; ReplaceSource against a model written from the statement and fed with the inner source's observed chunk stream.",
          "Trusts model::replace_attr and the harness's map resolver."),
- "C07": ("proptest generated trees incl. invalid UTF-8; oracle: reference text/bytes model; fault injection: writer failing after k bytes for every k",
+ "C07": ("proptest generated trees incl. invalid UTF-8; oracle: reference text/bytes model; fault injection: writer failing after k bytes for every k; wide trees (ConcatSource of 9-40 children incl. composites) among the generated ones",
          "All five views compared pairwise and with the model; the failing-writer fault point is enumerated exhaustively per generated tree.",
          "Trusts spec::model_bytes."),
  "C08": ("proptest generated (text, consistent map) pairs, the source built through both option structs and named gen.js or like a file of the map; oracle: lookup on the generated segment list; differential SourceMapSource vs user-defined source via stream_chunks_default; 1-3 other enclosing sources (replacement-less ReplaceSource, CachedSource, ConcatSources) between the SourceMapSource and the enclosing map()",
          "Attribution of every byte through three routes (normal stream, final-source stream, map() of an enclosing ConcatSource) equals lookup(M); declared tables equal M's.",
          "Trusts model::lookup."),
- "C09": ("proptest generated (outer map, inner map) pairs; oracle: reference composition over the generated segment lists",
+ "C09": ("proptest generated (outer map, inner map) pairs; oracle: reference composition over the generated segment lists; a third leg with inner sourcesContent larger than 64 KiB (filler prefix + identity) and outer names that are the text at their target",
          "Per-byte comparison of map() with a composition written from the statement (inner chunk located by the reference splitter).",
          "Trusts model::lookup::ref_chunks and the composition oracle in props/c09.rs; one detail (name compared with empty string on a missing line) is taken from the code."),
  "C10": ("proptest generated call histories over a CachedSource and two clones; oracle: never-cached twin built fresh from the same Spec (incl. whether there is a map, for trees without a pass-through SourceMapSource); thorough: libFuzzer+ASan target hist_c10",
@@ -45,7 +45,7 @@ CHECKS = {
  "C13": ("proptest generated triples of trees; metamorphic relations (regrouping, neutral elements, wrappers), each side on fresh objects and on one object asked repeatedly; thorough: libFuzzer+ASan target triple_c13; a second leg with SourceMapSource leaves whose maps are longer than their text",
          "20 law instances per triple compared on the text views and on per-byte attribution from map() and from the chunk stream.",
          "The 'only empty replacements' law is read together with C06 (the column may be refined)."),
- "C14": ("proptest generated pairs (same Spec or one edit apart) with observer histories on one operand, x optionally observed while under construction, pairs of maps sharing their payload; metamorphic: ==, hash and observers before/after; thorough: libFuzzer+ASan target pair_c14; trees holding a typed ConcatSource twice are built with shared reference-counted children on one side and separately allocated ones on the other",
+ "C14": ("proptest generated pairs (same Spec or one edit apart) with observer histories on one operand, x optionally observed while under construction, pairs of maps sharing their payload; metamorphic: ==, hash and observers before/after; thorough: libFuzzer+ASan target pair_c14; trees holding a typed ConcatSource twice are built with shared reference-counted children on one side and separately allocated ones on the other; a twin whose raw leaves are built through another constructor spelling (from_static text at an unaligned address vs heap copy) compared by ==, SipHash, a write-boundary-sensitive hasher and every observer",
          "Equality/hash/clone coherence and history independence over every source type, typed and dyn.",
          "For trees containing a CachedSource, maps and streams are compared by attribution (C10's notion) rather than verbatim."),
  "C15": ("proptest generated SourceMap values and harness-written JSON documents; oracle: serde_json as independent parser; writers taking 1 / 7 / 4096 bytes per call; thorough: libFuzzer+ASan target json; format key names and JSON literals as string values",
@@ -54,16 +54,16 @@ CHECKS = {
  "C16": ("proptest generated rope construction programs + exhaustive enumeration of small programs; oracle: flat String model (incl. byte_slice_unchecked inside its precondition and the iterators through std adaptors); thorough: libFuzzer+ASan target rope_prog",
          "Every observer of Rope compared with the String it stands for; all slice ranges of every generated rope; std's UB checks on (checked profile).",
          "Trusts model::rope_prog."),
- "C17": ("proptest generated mappings strings, mutated JSON bytes and wild source trees (every method, typed clones of every composite node) on two build profiles; thorough: libFuzzer+ASan targets decode/json/tree_prog; oracle: totality (no panic, parsers agree on accept/reject); documents framed by the XSSI guard, BOMs, sourceMappingURL comments and data: heads",
+ "C17": ("proptest generated mappings strings, mutated JSON bytes and wild source trees (every method, typed clones of every composite node) on two build profiles; thorough: libFuzzer+ASan targets decode/json/tree_prog; oracle: totality (no panic, parsers agree on accept/reject); documents framed by the XSSI guard, BOMs, sourceMappingURL comments and data: heads; wide trees (ropes of more than 16 / 32 pieces beneath ReplaceSource / CachedSource layers)",
          "Every public entry point is driven with in-domain but hostile input on the overflow-checked build and again on the release-semantics build; coverage-guided campaigns extend the byte-level legs in the thorough tier.",
          "A watchdog (300 s per case) turns a slow case into exit 2 (inconclusive), never into a violation; only a case whose threads are all asleep without consuming CPU time for 40 watchdog ticks (blocked for good, e.g. a lock taken twice) is reported as a violation of 'never hangs'; known finding W2 is tolerated only in its exact shape and signature."),
  "C18": ("generated (program, schedule) pairs under a harness-owned cooperative scheduler driven through cfg-guarded schedule points; random schedules plus exhaustive enumeration of all schedules with <=2 preemptions per generated program; an unscheduled really-parallel leg; shared trees built cold or stale; oracle: single-threaded twin, deadlock detection, write-once cache hook + identity of handed-out maps; thorough: libFuzzer+ASan target sched_prog; CloneMutate operation (a thread mutates and reads its own typed clone)",
          "The schedule is the generated input: real threads run strictly one at a time and switch only at the library's shared-state accesses, lock acquisitions and callbacks into a user-defined child source. Exhaustive for the bounded-preemption schedules of each explored program, exploration over programs.",
          "Atomicity is assumed below the granularity of the schedule points (inside DashMap, OnceLock, Mutex, Arc); weak-memory reorderings are out of reach (the crate uses SeqCst and locks only)."),
- "C19": ("the generators of C16, C01/C17 and C18 run with guarded precondition assertions before each of the 14 unsafe operations, std's unsafe-precondition checks, on two build profiles; thorough: libFuzzer targets rope_prog / tree_prog under AddressSanitizer",
+ "C19": ("the generators of C16, C01/C17 and C18 run with guarded precondition assertions before each of the 14 unsafe operations, std's unsafe-precondition checks, on two build profiles; thorough: libFuzzer targets rope_prog / tree_prog under AddressSanitizer; quick tier: the checking binary's allocator overwrites freed memory and moves on realloc, borrowed chunks are read after the call returned and must still be UTF-8 and reassemble",
          "Every generated program respected every stated precondition; borrowed chunks, names and contents are kept until the stream call returned (and, for schedules, until all threads finished) and then read.",
          "Absence of undefined behaviour is not established by testing; Miri is outside this technique family and not used."),
- "C20": ("proptest generated one-edit pairs and shared-payload pairs filtered by an observable difference (maps compared as JSON text); cross-process / cross-thread hash comparison; doubled trees hashed with shared vs separately allocated children (address independence)",
+ "C20": ("proptest generated one-edit pairs and shared-payload pairs filtered by an observable difference (maps compared as JSON text); cross-process / cross-thread hash comparison; doubled trees hashed with shared vs separately allocated children (address independence); every batch tree re-hashed with its raw leaves respelled (unaligned &'static str / heap copy) under SipHash and a write-boundary-sensitive hasher, raw leaves of 60-260 bytes in every batch",
          "Hash sensitivity to every ingredient at every depth, and reproducibility of the hash in a freshly spawned process.",
          "A single 64-bit collision would be reported as such (second hasher)."),
 }
